@@ -1,5 +1,6 @@
 import Noodles.Basic.Wire
 import Noodles.Csi.Driver
+import Noodles.Index.Driver
 import Noodles.Csi.DriverC04
 import Noodles.Fasta.DriverC11
 import Noodles.Bgzf.Driver
@@ -18,7 +19,7 @@ open Noodles.Wire
 
 def dispatch (line : String) : String :=
   match words line with
-  | "c17" :: rest => Csi.handle rest
+  | "c17" :: rest => (Index.handleIndex rest).getD (Csi.handle rest)
   | "c04" :: rest => Csi.handleC04 rest
   | "c01" :: rest => Bgzf.handleC01 rest
   | "c02" :: rest => Bgzf.RM.handleC02 rest
